@@ -372,6 +372,11 @@ def _inert(st: ast.stmt, env: dict) -> bool:
     if (isinstance(st, ast.AugAssign) and isinstance(st.target, ast.Attribute) and st.target.attr == "num_access" and isinstance(st.target.value, ast.Name)
             and env.get(st.target.value.id) == "file" and isinstance(st.op, ast.Add) and _u(st.value) == "1"):
         return True                                     # ledger (num_access), not structure
+    if (isinstance(st, ast.Assign) and len(st.targets) == 1 and isinstance(st.targets[0], ast.Attribute) and st.targets[0].attr in ("folder_id", "folder_name")
+            and isinstance(st.targets[0].value, ast.Name) and env.get(st.targets[0].value.id) == "file" and isinstance(st.value, ast.Attribute)
+            and isinstance(st.value.value, ast.Name) and env.get(st.value.value.id) == "folder"
+            and st.value.attr == {"folder_id": "uuid", "folder_name": "name"}[st.targets[0].attr]):
+        return True                                     # back reference of a file to its folder: not part of the structure
     if isinstance(st, ast.If):
         if _u(st) in LEDGER_IFS:
             return True
@@ -535,6 +540,15 @@ def _lstmts(body: List[ast.stmt], kind: str, res: str, env: dict, ind: int) -> s
                 upd += pad + f"  let s := updFolder s {y}.id (fun g => {{ g with restoreDuration := d }})\n"
             return (pad + "match s.defaultRestore with\n" + pad + "| some d =>\n" + pad + "  " + upd + _lstmts(rest, kind, res, env, ind + 1) + "\n"
                     + pad + "| none =>\n" + _lstmts(rest, kind, res, env, ind + 1))
+        # `if Y.get_file(N) is [not] None:` on a folder variable
+        if (isinstance(t, ast.Compare) and isinstance(t.ops[0], (ast.Is, ast.IsNot)) and isinstance(t.comparators[0], ast.Constant)
+                and t.comparators[0].value is None and isinstance(t.left, ast.Call) and isinstance(t.left.func, ast.Attribute)
+                and t.left.func.attr == "get_file" and isinstance(t.left.func.value, ast.Name) and env.get(t.left.func.value.id) == "folder"):
+            c0 = t.left
+            cond = f"({c0.func.value.id}.getFile {_name_arg(_lkw(c0, 'file_name', 0), env)} {_incl(_lkw(c0, 'include_deleted', 1), env)}).isSome"
+            some_b, none_b = (list(st.body), list(st.orelse)) if isinstance(t.ops[0], ast.IsNot) else (list(st.orelse), list(st.body))
+            return (pad + f"if {cond} then\n" + _lstmts(some_b + rest, kind, res, env, ind + 1) + "\n" + pad + "else\n"
+                    + _lstmts(none_b + rest, kind, res, env, ind + 1))
         neg = isinstance(t, ast.UnaryOp) and isinstance(t.op, ast.Not)
         core = t.operand if neg else t
         yes, no = (list(st.orelse), list(st.body)) if neg else (list(st.body), list(st.orelse))
@@ -702,6 +716,16 @@ def _lstmts(body: List[ast.stmt], kind: str, res: str, env: dict, ind: int) -> s
             if env.get(x) != "file":
                 raise Unsupported("remove_file argument " + _u(c))
             return pad + f"let g := g.removeFile {x}\n" + _lstmts(rest, kind, res, env, ind)
+        if (kind == "fs" and isinstance(c.func, ast.Attribute) and c.func.attr == "pop" and isinstance(c.func.value, ast.Attribute)
+                and c.func.value.attr == "files" and isinstance(c.func.value.value, ast.Name) and env.get(c.func.value.value.id) == "folder"
+                and len(c.args) == 1 and not c.keywords and RAISE is not None):
+            y, k = c.func.value.value.id, _uuid_arg(c.args[0], env)
+            # dict.pop(k) without a default raises KeyError for a missing key. The folder object is mutated IN the file system: every folder
+            # variable is read again from the state afterwards (a variable denotes the object of that uuid; an object not stored keeps its value)
+            rebind = "".join(pad + f"  let {v} := (findFolderById s {v}.id).getD {v}\n" for v, kd in env.items() if kd == "folder" and not v.startswith("@"))
+            return (pad + f"if !({y}.files.any (fun y => y.id == {k})) then {RAISE} else\n"
+                    + pad + f"  let s := updFolder s {y}.id (fun g => {{ g with files := dictPop File.id g.files {k} }})\n" + rebind
+                    + _lstmts(rest, kind, res, env, ind + 1))
         if kind == "fs" and f == "self.create_folder" and len(c.args) + len(c.keywords) == 1:
             return pad + f"let s := (fsCreateFolder s {_name_arg(_lkw(c, 'folder_name', 0), env)}).1\n" + _lstmts(rest, kind, res, env, ind)
         if kind == "fs" and f == "self.delete_file" and not c.args and {k.arg for k in c.keywords} == {"folder_name", "file_name"}:
@@ -919,6 +943,8 @@ LOOKUP_METHODS = [  # (class, method, lean name, kind, result, parameters (pytho
     ("FileSystem", "get_folder_by_id", "fsGetFolderById", "fs", "optfolder", [("folder_uuid", "Nat", "uuid"), ("include_deleted", "Bool", "bool")]),
     ("FileSystem", "delete_file_by_id", "fsDeleteFileById", "fs", "unit!", [("folder_uuid", "Nat", "uuid"), ("file_uuid", "Nat", "uuid")]),
     ("FileSystem", "delete_folder_by_id", "fsDeleteFolderById", "fs", "unit!", [("folder_uuid", "Nat", "uuid")]),
+    ("FileSystem", "move_file", "fsMoveFile", "fs", "unit!", [("src_folder_name", "Name", "name"), ("src_file_name", "Name", "name"),
+                                                              ("dst_folder_name", "Name", "name")]),
     ("FileSystem", "copy_file", "fsCopyFile", "fs", "unit!", [("src_folder_name", "Name", "name"), ("src_file_name", "Name", "name"),
                                                               ("dst_folder_name", "Name", "name")]),
 ]
